@@ -33,6 +33,27 @@ Proof.
   destruct (value_enc_injective v1 v2 [] r H1 H2 He) as [Hv Hr]. split; [exact Hv|now symmetry].
 Qed.
 
+(* a byte stream splits into well-formed dynamic values in at most one way *)
+Lemma enc_dval_nonempty : forall v r, wf_dval v -> enc_dval v ++ r <> [].
+Proof.
+  intros v r Hv He. apply app_eq_nil in He. destruct He as [He _].
+  pose proof (value_roundtrip_top wclean v (enc_dval DVoid) eq_refl Hv) as E1.
+  pose proof (value_roundtrip_top wclean DVoid [] eq_refl wf_void) as E2.
+  rewrite He in E1. cbn [app] in E1. rewrite app_nil_r in E2. rewrite E1 in E2.
+  inversion E2.
+Qed.
+Lemma enc_dval_stream_injective : forall vs1 vs2, Forall wf_dval vs1 -> Forall wf_dval vs2 ->
+  flat_map enc_dval vs1 = flat_map enc_dval vs2 -> vs1 = vs2.
+Proof.
+  induction vs1 as [|v1 vs1 IH]; intros vs2 H1 H2 He; destruct vs2 as [|v2 vs2]; cbn [flat_map] in He.
+  - reflexivity.
+  - exfalso. inversion H2 as [|x2 l2 Hv2 Hr2]; subst. symmetry in He. now apply enc_dval_nonempty in He.
+  - exfalso. inversion H1 as [|x1 l1 Hv1 Hr1]; subst. now apply enc_dval_nonempty in He.
+  - inversion H1 as [|x1 l1 Hv1 Hr1]; subst. inversion H2 as [|x2 l2 Hv2 Hr2]; subst.
+    destruct (value_enc_injective v1 v2 _ _ Hv1 Hv2 He) as [Hv Hr]. subst v2.
+    f_equal. now apply IH.
+Qed.
+
 (* typed data: for a fixed signature the documented encoding is injective and prefix-free on
    well-typed values, and what the reflection encoder writes is read back by the typed decoder
    of the documented format (the two serializers compose to the identity) *)
